@@ -500,6 +500,22 @@ def check_path(blk, b, rng):
                 return dict(what='impulse_nonlinear differs from the reference interpreter of the DSL', input=dict(kind='path', outs=b['outs'], src=[py(x) for x in b['outs']],
                             ss=b['ss'], T=T, nin=nin, paths={str(k): v for k, v in paths.items()}, output=j), observed=got.tolist(), expected=exp.tolist(),
                             signature=dict(op='impulse_nonlinear'))
+        # a distinct INITIAL steady state (lags before date 0 read it), with only a subset of the inputs shocked: the unshocked ones must still start from it
+        ssi = [v * (1 + rng.choice([-0.2, 0.1, 0.25])) for v in b['ss']]
+        ss0 = blk.steady_state({f'x{i}': float(v) for i, v in enumerate(ssi)})
+        for sub in ([shocked[0]], shocked):
+            sp = {i: paths[i] for i in sub}
+            envi = {i: (lambda t, i=i: b['ss'][i] + (sp[i][t] if i in sp and 0 <= t < T else 0.0)) for i in range(nin)}
+            ri = blk.impulse_nonlinear(ss, {f'x{i}': np.array(p) for i, p in sp.items()}, ss_initial=ss0)
+            for j, e in enumerate(b['outs']):
+                exp = np.array([ref_eval(e, envi, b['ss'], ssi, T, t) for t in range(T)]) - ref_ss(e, b['ss'])
+                got = np.asarray(ri[f'y{j}'])
+                if not np.all(np.isfinite(exp)):
+                    continue
+                if got.shape != (T,) or np.abs(got - exp).max() > 1e-8 * max(1, np.abs(exp).max()):
+                    return dict(what='impulse_nonlinear with a distinct initial steady state differs from the reference interpreter (lags before date 0 must read the initial steady state of EVERY input, shocked or not)',
+                                input=dict(kind='path', outs=b['outs'], src=[py(x) for x in b['outs']], ss=b['ss'], ss_initial=ssi, T=T, nin=nin, paths={str(k): v for k, v in sp.items()}, output=j),
+                                observed=got.tolist(), expected=exp.tolist(), signature=dict(op='impulse_nonlinear', ss_initial=True, all_inputs_shocked=len(sp) == nin))
     except (ValueError, ZeroDivisionError, OverflowError):
         return None
     return None
@@ -559,7 +575,7 @@ def oracle(ctx, hints, broken):
     n += 1
     return dict(evaluations=n, violations=viol,
                 rule='central differences (h=1e-4) of the block\'s own impulse_nonlinear on a T+K window vs Jacobian columns for every input, date and output; '
-                     'zero shock on every subset of inputs; steady state vs direct evaluation; nonlinear paths vs an independent reference interpreter; '
+                     'zero shock on every subset of inputs; steady state vs direct evaluation; nonlinear paths vs an independent reference interpreter incl. a distinct initial steady state with a strict subset of the inputs shocked; '
                      'full DSL incl. / ** log exp, int- and float-valued steady states, enumerated nested-shift shapes first')
 
 
